@@ -180,6 +180,8 @@ def run(run, ix, tier):
     from .special_rules import check_special_values, ELEMENTARY
     run.rule('S-R2', floor=50, desc='documented limits of the elementary kernels on every special operand class')
     check_special_values(run, ix, 'S-R2', sorted(ELEMENTARY))
+    check_cancelling_sums(run, ix)
+    check_exact_root_exits(run, ix)
     # ---- B-R8: real-axis delegation of the complex exp/trig family ---------------------------------
     run.rule('B-R8', floor=10, desc='complex exp/trig kernels delegate real-axis arguments to the real kernel')
     for name in AXIS_FAMILY:
@@ -193,3 +195,200 @@ def run(run, ix, tier):
                              'argument to the real kernel (which reduces the argument carefully); the general '
                              'formula cancels near the real zeros/poles, so finite values become '
                              'ZeroDivisionError or garbage there' % (why, len(AXIS_FAMILY)), line=f.lineno))
+
+
+# --------------------------------------------------------------------------- R-C1
+# value ranges of the real kernels the complex trigonometric family is built from
+RANGE_OF_CALL = {
+    'mpf_cos_sin': ('UNIT', 'UNIT'), 'mpf_cos_sin_pi': ('UNIT', 'UNIT'),
+    'mpf_cosh_sinh': ('GE1', 'ANY'),
+    'mpf_cos': 'UNIT', 'mpf_sin': 'UNIT', 'mpf_cos_pi': 'UNIT', 'mpf_sin_pi': 'UNIT',
+    'mpf_cosh': 'GE1', 'mpf_sinh': 'ANY', 'mpf_exp': 'POS', 'mpf_abs': 'GE0', 'mpf_sqrt': 'GE0',
+}
+NONNEG = ('GE0', 'GE1', 'POS')
+
+
+class RangeScan(object):
+    """UNIT = [-1, 1], GE1 = [1, inf), GE0 = [0, inf), POS = (0, inf), ANY.  A sum of a UNIT and a GE1 value
+    (cos + cosh, 1 + cos, cosh - cos ...) can vanish although both terms have size one: all digits cancel."""
+
+    def __init__(self, fn):
+        self.rng = {}
+        self.sites = []          # (call, verdict, text)
+        for st in _walk_own(fn):
+            if isinstance(st, ast.Assign) and len(st.targets) == 1:
+                self.bind(st.targets[0], self.of(st.value))
+        for c in _walk_own(fn):
+            if isinstance(c, ast.Call) and isinstance(c.func, ast.Name) and c.func.id in ('mpf_add', 'mpf_sub') \
+                    and len(c.args) >= 2:
+                a, b = self.of(c.args[0]), self.of(c.args[1])
+                if isinstance(a, tuple) or isinstance(b, tuple) or a is None or b is None:
+                    continue
+                sub = c.func.id == 'mpf_sub'
+                if {a, b} == {'UNIT', 'GE1'}:
+                    self.sites.append((c, 'cancels', '%s of a value in [-1, 1] and a value >= 1' %
+                                       ('difference' if sub else 'sum')))
+                elif a in NONNEG and b in NONNEG and not sub:
+                    self.sites.append((c, 'ok', 'sum of two non-negative values'))
+                elif a == b == 'UNIT' or (sub and a in NONNEG and b in NONNEG):
+                    self.sites.append((c, 'cancels', 'the two terms can be equal'))
+
+    def bind(self, t, r):
+        if isinstance(t, ast.Name):
+            if r is not None:
+                # a name bound twice keeps a range only when both agree
+                self.rng[t.id] = r if self.rng.get(t.id, r) == r else 'ANY'
+        elif isinstance(t, ast.Tuple) and isinstance(r, tuple) and len(r) == len(t.elts):
+            for e, x in zip(t.elts, r):
+                self.bind(e, x)
+
+    def of(self, e):
+        if isinstance(e, ast.Name):
+            if e.id == 'fone':
+                return 'GE1'
+            return self.rng.get(e.id)
+        if isinstance(e, ast.Call) and isinstance(e.func, ast.Name):
+            f = e.func.id
+            if f in RANGE_OF_CALL:
+                return RANGE_OF_CALL[f]
+            if f == 'mpf_mul' and len(e.args) >= 2:
+                if norm(e.args[0]) == norm(e.args[1]):
+                    return 'GE0'                       # a square
+                a, b = self.of(e.args[0]), self.of(e.args[1])
+                if a in NONNEG and b in NONNEG:
+                    return 'GE0'
+                if a == b == 'UNIT':
+                    return 'UNIT'
+                return 'ANY' if a and b else None
+            if f == 'mpf_shift' and e.args:
+                r = self.of(e.args[0])
+                return {'GE1': 'POS', 'UNIT': 'ANY'}.get(r, r)
+            if f in ('mpf_add',) and len(e.args) >= 2:
+                a, b = self.of(e.args[0]), self.of(e.args[1])
+                if a in NONNEG and b in NONNEG:
+                    return 'GE0'
+                return 'ANY' if a and b else None
+            if f in ('mpf_neg', 'mpf_sub', 'mpf_div'):
+                return 'ANY'
+        return None
+
+
+def check_cancelling_sums(run, ix):
+    """R-C1.  In the complex trigonometric kernels (functions of libmpc.py that take both a circular and a
+    hyperbolic real kernel) a sum or difference at a fixed working precision must not combine a value in [-1, 1]
+    with a value >= 1: cos(2a) + cosh(2b) is the denominator of tan(a+bi) and vanishes to working precision near
+    every pole, where the function is finite (ZeroDivisionError, or a quotient of rounding noise).  Sums of
+    squares / of non-negative values are the cancellation-free form and are counted as discharged."""
+    run.rule('R-C1', floor=1, desc='no sum of a [-1,1] value and a >=1 value at fixed precision in the complex trig kernels')
+    # positive control
+    demo = ast.parse('def f(a, b, wp):\n    c, s = mpf_cos_sin(a, wp)\n    ch, sh = mpf_cosh_sinh(b, wp)\n'
+                     '    mag = mpf_add(c, ch, wp)\n    return mpf_div(s, mag, wp)\n').body[0]
+    for n_ in ast.walk(demo):
+        for ch_ in ast.iter_child_nodes(n_):
+            ch_._parent = n_
+    if [v for _, v, _ in RangeScan(demo).sites] != ['cancels']:
+        raise AnalysisError('R-C1 detector does not recognise its positive example')
+    m = ix.module(LIBMPC)
+    judged = 0
+    for f in m.funcs.values():
+        if f.parent is not None or not isinstance(f.node, ast.FunctionDef):
+            continue
+        names = {c.func.id for c in _walk_own(f.node) if isinstance(c, ast.Call) and isinstance(c.func, ast.Name)}
+        if not (names & {'mpf_cos_sin', 'mpf_cos_sin_pi', 'mpf_cos', 'mpf_sin'} and
+                names & {'mpf_cosh_sinh', 'mpf_cosh', 'mpf_sinh'}):
+            continue
+        judged += 1
+        for c, verdict, text in RangeScan(f.node).sites:
+            if verdict == 'ok':
+                run.ok('R-C1', '%s: %s -- %s' % (f.name, norm(c, 70), text))
+            else:
+                run.fail(Finding('R-C1', LIBMPC, f.name, norm(c), '%s at the fixed precision `%s`: near a zero of the '
+                                 'sum every digit cancels (tan(mpc(pi/2, 1e-30)) lost 12 orders of magnitude, and '
+                                 'raised ZeroDivisionError where tan is finite); use a cancellation-free form such as '
+                                 'cos(a)^2 + sinh(b)^2' % (text, norm(c.args[2]) if len(c.args) > 2 else 'default'),
+                                 line=c.lineno))
+    run.stats['complex_trig_kernels_scanned'] = judged
+    if judged < 6:
+        raise AnalysisError('R-C1: only %d complex trigonometric kernels found' % judged)
+
+
+# --------------------------------------------------------------------------- E-X1
+def check_exact_root_exits(run, ix):
+    """E-X1.  root(x**n, n) is exact in every rounding mode only if every result of mpf_nthroot for n >= 2 is
+    first offered to the perfect-power test: each binding of the value that the function returns (the Newton
+    branch and the exp/log branch) has the shape `exact_nthroot(s, n, prec, <approximation>) or <rounded>`, and
+    the test itself is sound and complete for its purpose -- it returns a candidate only after `c**n == man`
+    held for it, rejects an exponent that is not a multiple of n and a root longer than prec, and tries the
+    neighbours of the truncated approximation."""
+    run.rule('E-X1', floor=5, desc='every n >= 2 result of mpf_nthroot passes the perfect-power test first')
+    f = ix.func(LIBELE, 'mpf_nthroot')
+    par = f.params
+    roots = [c for c in _walk_own(f.node) if isinstance(c, ast.Call) and isinstance(c.func, ast.Name)
+             and c.func.id in ('nthroot_fixed', 'mpf_pow')]
+    if len(roots) < 2:
+        raise AnalysisError('mpf_nthroot: the two root computations were not found')
+    # the statements that produce the value handed back for n >= 2: assignments to the name that the
+    # branch returns / divides
+    for rc in roots:
+        st = rc
+        while not isinstance(st, ast.stmt):
+            st = st._parent
+        blk = st._parent.body if st in getattr(st._parent, 'body', []) else st._parent.orelse
+        i = blk.index(st)
+        # first later statement of the block that assigns from a BoolOp / rounding call
+        prod = None
+        for nxt in blk[i:]:
+            if isinstance(nxt, ast.Assign) and isinstance(nxt.value, (ast.BoolOp, ast.Call)) and nxt is not st:
+                v = nxt.value
+                if isinstance(v, ast.BoolOp) or norm(v.func) in ('mpf_pos', 'from_man_exp'):
+                    prod = nxt
+                    break
+        if prod is None:
+            raise AnalysisError('mpf_nthroot: result of %s is not bound' % norm(rc, 40))
+        v = prod.value
+        ok = isinstance(v, ast.BoolOp) and isinstance(v.op, ast.Or) and isinstance(v.values[0], ast.Call) \
+            and norm(v.values[0].func) == 'exact_nthroot' and len(v.values[0].args) == 4 \
+            and [norm(a) for a in v.values[0].args[:3]] == [par[0], par[1], par[2]]
+        if ok:
+            run.ok('E-X1', 'mpf_nthroot: %s' % norm(prod, 90))
+        else:
+            run.fail(Finding('E-X1', LIBELE, 'mpf_nthroot', norm(prod), 'this branch rounds its approximate root '
+                             'without testing for a perfect power first: under a directed mode the root of x**n '
+                             'comes out one unit off (mpf_nthroot(1.0, 17, 53, \'u\') == 1 + 2**-52, the 21st root '
+                             'of 2**21 rounded down is 2 - 2**-52)', line=prod.lineno))
+    h = ix.find_func(LIBELE, 'exact_nthroot')
+    if h is None:
+        if any(x.rule == 'E-X1' for x in run.findings):
+            return
+        raise AnalysisError('exact_nthroot not found')
+    rets = [r for r in _walk_own(h.node) if isinstance(r, ast.Return)]
+    valued = [r for r in rets if not (r.value is None or (isinstance(r.value, ast.Constant) and r.value.value is None))]
+    # soundness: every non-None return sits under a test that contains c**n == man
+    for r in valued:
+        p_, okp = getattr(r, '_parent', None), False
+        while p_ is not None and p_ is not h.node:
+            if isinstance(p_, ast.If) and any(isinstance(c, ast.Compare) and isinstance(c.ops[0], ast.Eq)
+                                              and isinstance(c.left, ast.BinOp) and isinstance(c.left.op, ast.Pow)
+                                              and norm(c.comparators[0]) == 'man' for c in ast.walk(p_.test)):
+                okp = True
+            p_ = getattr(p_, '_parent', None)
+        if okp:
+            run.ok('E-X1', 'exact_nthroot: `%s` only after c**n == man' % norm(r, 50))
+        else:
+            run.fail(Finding('E-X1', LIBELE, 'exact_nthroot', norm(r), 'a candidate root is returned without the '
+                             'exact test c**n == man', line=r.lineno))
+    tests = [norm(t.test) for t in _walk_own(h.node) if isinstance(t, ast.If)]
+    for need, why in (('exp % n', 'an exponent that is not a multiple of n'), ('k > prec', 'a root longer than prec')):
+        if any(need in t for t in tests):
+            run.ok('E-X1', 'exact_nthroot rejects %s' % why)
+        else:
+            run.fail(Finding('E-X1', LIBELE, 'exact_nthroot', 'def exact_nthroot', 'the test does not reject %s'
+                             % why, line=h.lineno))
+    loops = [l for l in _walk_own(h.node) if isinstance(l, ast.For) and isinstance(l.iter, ast.Tuple)]
+    cands = {norm(e) for l in loops for e in l.iter.elts}
+    if {'t - 1', 't', 't + 1'} <= cands:
+        run.ok('E-X1', 'exact_nthroot tries the neighbours %s of the truncated approximation' % sorted(cands))
+    else:
+        run.fail(Finding('E-X1', LIBELE, 'exact_nthroot', 'def exact_nthroot', 'the candidates %s do not include '
+                         'both neighbours of the truncated approximation (the approximation may lie on either '
+                         'side of the root)' % sorted(cands), line=h.lineno))
